@@ -33,6 +33,10 @@ C11_Unary == {PUn("not", PBin(o, t[1], t[2])) : o \in CmpOps \cup BoolOps, t \in
                \cup {PBin(o, PUn(u, PStr(Sabc)), PStr(Sa)) : o \in {"+"} \cup CmpOps, u \in {"head", "tail"}}
                \cup {PUn(u, PBin("+", PStr(Sabc), PStr(S7))) : u \in {"head", "tail"}}
                \cup {PUn("not", PUn("not", PBool(TRUE))), PUn("head", PUn("tail", PStr(Sabc))), PUn("tail", PUn("tail", PStr(Sabc)))}
+               \* head and tail work on bytes, also inside a multi-byte character
+               \cup {PUn(u, PStr(x)) : u \in {"head", "tail"}, x \in {<<195, 169>>, <<195, 169, 97>>, <<226, 130, 172>>, <<97, 195, 169>>}}
+               \cup {PUn("head", PUn("tail", PStr(<<226, 130, 172>>))), PUn("tail", PUn("tail", PStr(<<195, 169, 97>>))),
+                     PBin("+", PUn("tail", PStr(<<195, 169>>)), PStr(Sa)), PBin("==", PUn("head", PStr(<<195, 169>>)), PUn("head", PStr(<<195, 160>>)))}
 Ops4 == {"+", "*", "-", "<", "==", "and"}
 C11_Deep == {PBin(o3, PBin(o2, PBin(o1, PNum(7), PNum(2)), PNum(3)), PNum(5)) : o1 \in Ops4, o2 \in Ops4, o3 \in Ops4}
               \cup {PBin(o1, PNum(7), PBin(o2, PNum(2), PBin(o3, PNum(3), PNum(5)))) : o1 \in Ops4, o2 \in Ops4, o3 \in Ops4}
@@ -108,9 +112,19 @@ Compound ==
     \cup {SLoop(<<SLoop(<<t>>), u>>) : t \in {SBrk, SCont, SRet(PNum(1))}, u \in {SBrk, SCont, SRet(PStr(Sa))}}
     \cup {SLoop(<<SIf(PBool(TRUE), <<t>>, <<u>>)>>) : t \in {SBrk, SCont}, u \in {SBrk, SRet(PBool(TRUE))}}
     \cup {SIf(PBool(TRUE), <<SLoop(<<SBrk>>), t>>, <<>>) : t \in {SBrk, SCont, SRet(PNum(1))}}
+(* bodies of several statements: an ill-typed statement before or after     *)
+(* well-typed ones, in every kind of nested body                            *)
+BadStmts == {SSet("q", PBin("*", PStr(Sa), PStr(Sa))), SDbg(PBin("and", PNum(1), PBool(TRUE))), SIf(PNum(1), <<SRet(PStr(Sa))>>, <<>>),
+             SBrk, SRet(PUn("head", PNum(1)))}
+GoodStmts == {SSet("n", PNum(1)), SRet(PStr(Sa)), SRet(PBool(TRUE)), SDbg(PNum(1)), SIf(PBool(TRUE), <<SRet(PStr(Sa))>>, <<>>)}
+NestedSeq ==
+  UNION {{SIf(PBool(TRUE), <<b, g>>, <<>>), SIf(PBool(TRUE), <<g, b>>, <<>>), SIf(PBool(TRUE), <<g>>, <<b, g>>), SLoop(<<b, g, SBrk>>),
+          SLoop(<<SIf(PBool(TRUE), <<b, g>>, <<>>), SBrk>>), SIf(PBool(TRUE), <<SIf(PBool(FALSE), <<g>>, <<b, g>>)>>, <<>>)}
+           : b \in BadStmts, g \in GoodStmts}
 EBadFwd == EBad
 C12_Lists(tier) ==
-  {<<a>> : a \in Simple \cup Compound \cup TypeTable}
+  {<<a>> : a \in Simple \cup Compound \cup TypeTable \cup NestedSeq}
+    \cup {<<a, SRet(PStr(Sa))>> : a \in NestedSeq} \cup {<<a, SRet(PBool(TRUE))>> : a \in NestedSeq}
     \cup {<<SLoop(<<a, SBrk>>)>> : a \in {SRet(PVar("match")), SRet(PNum(1)), SRet(PBool(TRUE)), SRet(PBin("==", PNum(1), PNum(1)))}}
     \cup {<<SIf(PBool(TRUE), <<SLoop(<<a>>)>>, <<>>), SRet(PStr(Sa))>> : a \in {SRet(PVar("match")), SRet(PBool(TRUE)), SBrk}}
     \cup {<<a, b>> : a \in Thin \cup {SSet("s", PStr(Sa))}, b \in Simple \cup Compound}
@@ -146,6 +160,19 @@ C09P_Case(id, e) ==
   [id |-> id, defs |-> <<>>, trans |-> <<[name |-> "f", stmts |-> Observe(e)]>>,
    cmds |-> <<[kind |-> "replace", amt |-> [k |-> "all"], body |-> RunBody, with |-> <<WName("f")>>]>>,
    sigma |-> <<48, 55, 97, 45, sp>>, lo |-> 1, hi |-> 3]
+(* predicates that do not reach a `return` for some candidates (the         *)
+(* candidate is then kept), on every candidate the scan and the             *)
+(* backtracking try                                                         *)
+C09P_PredBodies ==
+  LET long == PBin("<", PNum(2), PVar("matchLength"))
+      isa  == PBin("==", PVar("match"), PStr(<<49>>))
+  IN { <<SIf(long, <<SRet(PBool(FALSE))>>, <<>>)>>, <<SSet("n", PNum(1))>>, <<SLoop(<<SBrk>>)>>, <<SIf(isa, <<SRet(PBool(TRUE))>>, <<>>)>>,
+       <<SDbg(PVar("match"))>>, <<SIf(long, <<SRet(PBool(TRUE))>>, <<SIf(isa, <<SRet(PBool(FALSE))>>, <<>>)>>)>>,
+       <<SLoop(<<SIf(long, <<SRet(PBool(FALSE))>>, <<>>), SBrk>>)>>, <<SIf(isa, <<SRet(PBool(FALSE))>>, <<>>), SSet("n", PVar("matchLength"))>>,
+       <<SRet(long)>>, <<SIf(long, <<>>, <<SRet(PBool(FALSE))>>)>> }
+C09P_PredCase(id, ss) ==
+  [id |-> id, defs |-> <<GDef("p", <<Loop(1, -1, FALSE, Cls("digit"))>>, ss)>>,
+   cmds |-> <<FindAllCmd(<<Ref("p")>>)>>, sigma |-> <<49, 55, sp>>, lo |-> 1, hi |-> 4]
 (* a variable typed by its last assignment, used after the other branch ran *)
 FlowProbe ==
   [id |-> 0, defs |-> <<>>,
